@@ -183,7 +183,7 @@ func main() {
 	}
 	tasks := []task{{edgeCfg, pairs, 0}}
 	if thorough {
-		tasks = append(tasks, task{"MC_Project_edges_deep.cfg", []string{"Query_f1", "T_g"}, 300})
+		tasks = append(tasks, task{"MC_Project_edges_deep.cfg", []string{"Query_f1", "T_g"}, 150})
 	}
 	h := &handler{c: c, buildBudget: 40}
 	if thorough {
